@@ -184,3 +184,23 @@ fn d_ipfix_varlen_second_shorter_kf() {
     core::mem::forget(r);
     core::mem::forget(p);
 }
+
+/// C17: with the feature off, an IPFIX data set governed by a template containing an
+/// unknown field type is not reported as decoded data.
+#[cfg(feature = "off")]
+#[kani::proof]
+#[kani::stub(core::fmt::write, no_fmt)]
+#[kani::stub(netflow_parser::variable_versions::data_number::FieldValue::from_field_type, crate::d9::unknown_off_kernel_model)]
+fn d_ipfix_unknown_field_off() {
+    let n: u16 = kani::any();
+    kani::assume(n < 32768 && IPFixField::from(n) == IPFixField::Unknown);
+    let l: u16 = kani::any();
+    kani::assume(l >= 1 && l <= 3);
+    let mut p = IPFixParser::default();
+    p.templates.insert(256, Template { template_id: 256, field_count: 1, fields: vec![tf(n, IPFixField::from(n), l)], padding: vec![] });
+    let buf: [u8; 6] = kani::any();
+    let r = Data::parse(&buf, &mut p, 256);
+    assert!(r.is_err());
+    core::mem::forget(r);
+    core::mem::forget(p);
+}
